@@ -200,6 +200,7 @@ class Ctx:
         self.known = known or []  # list of dict(id, property, harness, obligation, where)
         self.notes = {}
         self.allow_realise = False  # harnesses with small finite cell domains switch this on
+        self.prefs = []  # soft preferences for counterexample models (see prefer)
         self.last = self.solver
         self.cross = []  # (obligation, outcome) of sampled second-opinion queries
 
@@ -467,6 +468,12 @@ class Ctx:
         rest = [z3.Not(f) for _, f in kforms if not is_lit_false(f)]
         if self._check(neg, *rest):
             m = self.last.model()
+            # prefer a DIVERSE counterexample (e.g. voxel sizes different from 1 and from each other): a solver's
+            # default values (all 0 / all 1) often hide a deviation when the model is replayed on the real stack
+            for k in range(len(self.prefs), 0, -1):
+                if self._check(neg, *rest, *self.prefs[:k]):
+                    m = self.last.model()
+                    break
             self.failures.append(dict(obligation=name, known=None, inputs=self._model_inputs(m),
                                       tags=list(self.tags)))
             self.results.append((name, "fail"))
@@ -474,6 +481,10 @@ class Ctx:
         if not hit:  # cannot happen: neg sat but neither split sat
             raise Unsupported("inconsistent known-finding split")
         return False
+
+    def prefer(self, formula):
+        """soft preference for counterexample models (never part of the path condition, never affects a verdict)"""
+        self.prefs.append(zb(unwrap(formula)))
 
     def witness(self, name, formula):
         """reachability twin: `pc and formula` must be satisfiable (recorded as tag)"""
